@@ -737,6 +737,8 @@ func IsValidFilter(filter string, forPublish bool) bool {
 		if strings.ContainsRune(filter, '+') || strings.ContainsRune(filter, '#') {
 			return false //[MQTT-3.3.2-2]
 		}
+
+		return true // the remaining rules concern subscription filters only
 	}
 
 	levels := strings.Split(filter, "/")
